@@ -301,6 +301,9 @@ func (st *AATStateTable) GetClass(glyph GID) uint16 {
 	if glyph == 0xFFFF { // deleted glyph
 		return 2 // class deleted
 	}
+	if st.class == nil { // invalid font: null class table offset
+		return 1 // class out of bounds
+	}
 	c, ok := st.class.Class(tables.GlyphID(glyph))
 	if !ok {
 		return 1 // class out of bounds
